@@ -426,6 +426,9 @@ class FnEmitter:
             ct = self.ctype(e)
             if self.tm.is_elem(e['type']) or ct.startswith('struct '):
                 t = self.tmp(ct)
+                if ct == 'E':
+                    self.pre.append('L0_fresh_local(&%s, sizeof(%s));' % (t, t))
+                    self.f.l0.add('L0_fresh_local')
                 self.construct_into(sub, '&' + t)
                 if ct == 'E' or self.L.find_dtor_ct(ct) is not None:
                     self.temps_to_destroy.append((t, ct))
@@ -1173,6 +1176,8 @@ class FnEmitter:
                 self.ret_constructed = True
                 return
             out.append(ind + '%s %s;' % (ct, name))
+            out.append(ind + 'L0_fresh_local(&%s, sizeof(%s));' % (name, name))
+            self.f.l0.add('L0_fresh_local')
             if init is not None:
                 self.construct_into(init, '&' + name)
                 for l in self.flush():
@@ -1184,6 +1189,9 @@ class FnEmitter:
             return
         if init is None:
             out.append(ind + '%s %s;' % (ct, name))
+            if ct.startswith('struct ') or ct == 'E':
+                out.append(ind + 'L0_fresh_local(&%s, sizeof(%s));' % (name, name))
+                self.f.l0.add('L0_fresh_local')
             return
         saved_temps, self.temps_to_destroy = self.temps_to_destroy, []
         pad = None
